@@ -160,16 +160,9 @@ def check_props(pid: str, clean: bool = False):
 
 
 def grep_forbidden():
-    """No Admitted/Axiom/... anywhere in the development. Returns list of offending 'file:line: text'."""
-    pat = re.compile(r"\b(Admitted|admit|Axiom|Axioms|Parameter|Parameters|Conjecture|Admit Obligations)\b|Unset Guard Checking|bypass_check|Unset Positivity|Unset Universe Checking|type-in-type")
-    bad = []
-    for f in sorted((COQ / "theories").rglob("*.v")):
-        in_comment = 0
-        for i, line in enumerate(f.read_text().splitlines(), 1):
-            s = re.sub(r"\(\*.*?\*\)", "", line)
-            if pat.search(s) and "(*" not in s:
-                bad.append(f"{f.relative_to(ROOT)}:{i}: {line.strip()[:100]}")
-    return bad
+    """No Admitted/Axiom/... anywhere in the development (comments and strings ignored): tools/forbidden.py."""
+    rc, out, _ = _run([sys.executable, str(ROOT / "tools" / "forbidden.py")], 120)
+    return [l for l in out.splitlines() if l.strip()] if rc != 0 else []
 
 
 def coq_eval(name: str, sources: list[str], timeout=900, jobs=16) -> list[str]:
